@@ -8,6 +8,7 @@
 #include "aho-corasick.h"
 #include "critic_markup.h"
 #include "token.h"
+token *mmd_critic_tokenize_string(const char *source, size_t start, size_t len);
 #ifndef N
 #define N 4
 #endif
